@@ -31,6 +31,10 @@ def run(ctx, rep):
     for r, tx in (("C11.a", "match predicate compares type, size, mtime and (unless ignored) ctime"), ("C11.b", "content is reused only if all chunks are indexed"),
                   ("C11.d", "force disables parents"), ("C11.e", "parent cursor discipline")):
         rep.rule(r, tx)
+    # C11.c = C07.d: the unchanged-tree shortcut compares ids
+    rep.rule("C11.c", "a tree is taken as unchanged only if its fresh id equals the parent's id (= C07.d)")
+    from rules import C07
+    C07.unchanged_tree_rule(ctx, rep, "C11.c")
     IP = prog.find1(r"^rustic_core::archiver::parent::Parent::is_parent$")
     # the predicate: the closure handed to Iterator::find in is_parent; a closure that only forwards to a named fn is followed
     finds = [(bb, t) for bb, t in IP.calls() if "callee" in t and re.search(r"Iterator(>)?::find$", callee(t) + " " + callee_decl(t))]
